@@ -639,10 +639,21 @@ def enc_boxes(d: list[dict], env: Env) -> str:
 
 
 def enc_case(env: Env, init: list[dict], steps: list[dict]) -> str:
+    """Per step only the mailboxes whose dump changed are listed (all of them
+    at the last step): the checker looks up every listed mailbox."""
     bk = 'Dict' if env.kind == 'dict' else 'Maildir'
-    return T.pair(bk, enc_boxes(init, env),
-                  T.lst(T.pair(enc_cmd(s['cmd']), enc_out(s['out']), enc_dump(s['dump'], env))
-                        for s in steps))
+    prev = {b['name']: canon_dump([b]) for b in init}
+    items = []
+    for k, s in enumerate(steps):
+        last = k == len(steps) - 1
+        listed = []
+        for b in s['dump']:
+            c = canon_dump([b])
+            if last or prev.get(b['name']) != c:
+                listed.append(b)
+            prev[b['name']] = c
+        items.append(T.pair(enc_cmd(s['cmd']), enc_out(s['out']), enc_dump(listed, env)))
+    return T.pair(bk, enc_boxes(init, env), T.lst(items))
 
 
 HEADER = ('From PV Require Import Base.Prelude Wire.SeqSet RefModel.Flags RefModel.Model '
